@@ -219,6 +219,23 @@ def run_obligation(ob, findings, seed=0):
         if ob.kind != "symx":
             r = ob.harness(**ob.case)
             out.update(r)
+            # ground (table / lemma) violations: classify against known findings by their concrete case values
+            fresh = []
+            for v in out["violations"]:
+                hit = None
+                for f in findings:
+                    if f.get("status") != "known" or (f.get("obligation") and f["obligation"] != ob.group):
+                        continue
+                    env = dict(ob.case)
+                    env.update(v.get("values") or {})
+                    if bool(eval_region(f["region"], env)):
+                        hit = f["id"]
+                        break
+                if hit:
+                    out["known"].append({"id": hit, "label": v["label"], "values": v.get("values"), "reproduced": True})
+                else:
+                    fresh.append(v)
+            out["violations"] = fresh
             out["wall_s"] = time.time() - t0
             return out
         known = _known_callables(findings, ob)
